@@ -187,6 +187,13 @@ def enum_valid(program, prims, families, counts):
                 counts["unspec"] += 1
             else:
                 counts["invalid"] += 1
+                # sensitivity ledger: box points where exactly ONE reference clause fails are the points
+                # that only that clause keeps out (a weakened encoder of that clause shows there)
+                failing = [c for c in cl if c[3] is False]
+                if len(failing) == 1:
+                    k = failing[0][1] + ":" + failing[0][2]
+                    counts.setdefault("critical", {})
+                    counts["critical"][k] = counts["critical"].get(k, 0) + 1
             return
         p = prims[i]
         for val in p.dom:
